@@ -21,7 +21,7 @@ pub fn def() -> CheckDef {
 fn meta(_ctx: &Ctx) -> Meta {
     Meta {
         level: "exploration",
-        rule: "every extraction runs in a fresh jail J with the target at J/l1/l2/l3/l4/l5/target and canary files/directories on every level outside the target; a full recursive snapshot (type, mode, size, mtime ns, content hash, link target) of J minus the target is taken before and after and must be identical. Positive: seeded built packages (nested directories, explicit directory entries, symlinks, all permission bits incl. setuid/setgid/sticky) must produce every regular file / directory / symlink at target+path with the archived content, permission bits and link target. Hostile (hand-encoded header + cpio; all absolute paths and symlink targets point into J, '..' chains at most 5 long): '..' in directory or base names, base names with '/', absolute base names, empty names, duplicate paths, a symlink followed by a file of the same path or below it (absolute and relative targets, to a file and to a directory), directory then symlink of the same name, FIFO/char/block/socket/zero type bits, names disagreeing between cpio and header; result must be Ok or Err, never a panic. Release and verifdbg. Unprivileged phase: built packages (incl. read-only directory entries with children) are written to a file and extracted by a child process running as uid 65534 under umask 022 / 077 / 000 / 027; same oracles. Further hostile families: entries whose directory name lies below a link, lone links to existing outside objects, links to siblings of the target whose names start with the target's name. Hostile packages are extracted to the canonical spelling of the target, to a spelling with . and .. components and through a symbolic link to its parent; the unprivileged child runs with 48 file descriptors and every tenth of its packages has 120-320 files. distinct_nontrivial = distinct extractions whose jail snapshots were compared".into(),
+        rule: "every extraction runs in a fresh jail J with the target at J/l1/l2/l3/l4/l5/target and canary files/directories on every level outside the target; a full recursive snapshot (type, mode, size, mtime ns, content hash, link target) of J minus the target is taken before and after and must be identical. Positive: seeded built packages (nested directories, explicit directory entries, symlinks, all permission bits incl. setuid/setgid/sticky) must produce every regular file / directory / symlink at target+path with the archived content, permission bits and link target. Hostile (hand-encoded header + cpio; all absolute paths and symlink targets point into J, '..' chains at most 5 long): '..' in directory or base names, base names with '/', absolute base names, empty names, duplicate paths, a symlink followed by a file of the same path or below it (absolute and relative targets, to a file and to a directory), directory then symlink of the same name, FIFO/char/block/socket/zero type bits, names disagreeing between cpio and header; result must be Ok or Err, never a panic. Release and verifdbg. Unprivileged phase: built packages (incl. read-only directory entries with children) are written to a file and extracted by a child process running as uid 65534 under umask 022 / 077 / 000 / 027; same oracles. Further hostile families: entries whose directory name lies below a link, lone links to existing outside objects, links to siblings of the target whose names start with the target's name. Hostile packages are extracted to the canonical spelling of the target, to a spelling with . and .. components and through a symbolic link to its parent; the unprivileged child runs with 48 file descriptors and every tenth of its packages has 120-320 files. distinct_nontrivial = distinct extractions whose jail snapshots were compared The outside directories (outside-dir, its sub and sub/deeper, the target's sibling) hold symbolic links under the names the hostile entries use below their links (state, planted, l2, state-dir, planted-dir): a link removed or re-pointed out there is an escape".into(),
         assumptions: vec!["hostile inputs are constructed so that an escaping write lands inside the jail".into()],
         floor_distinct: 100,
     }
